@@ -22,9 +22,9 @@ type Points struct {
 	counts map[string]map[string]int // dir -> point -> occurrences
 
 	// perturbation policy
-	delayProb float64                // probability of a delay at a point
-	delayMax  time.Duration          // upper bound of a delay
-	weights   map[string]float64     // per point multiplier of delayProb
+	delayProb float64                  // probability of a delay at a point
+	delayMax  time.Duration            // upper bound of a delay
+	weights   map[string]float64       // per point multiplier of delayProb
 	holds     map[string]chan struct{} // "dir|point" -> released by closing
 	holdHit   map[string]chan struct{} // closed when a goroutine arrives at a hold
 
